@@ -13,7 +13,7 @@ vars == <<tid, l, mon, done>>
 Init == tid \in 1..Len(Traces) /\ l = 1 /\ mon = MonInit /\ done = FALSE
 
 Step(e) ==
-  CASE e.ev = "tx" -> LET c == FrameClause(e) IN IF c # "ok" THEN Bad(mon, c) ELSE MonStreamTx(mon, e)
+  CASE e.ev = "tx" -> LET c == FrameClause(e) IN IF c # "ok" THEN Bad(mon, c) ELSE MonStreamTx(MonTxAllowed(mon, e), e)
     [] e.ev = "tx_garbage" -> Bad(mon, "C02.Framing")
     [] e.ev = "rd" -> MonRd(mon, e)
     [] e.ev = "dv" -> MonDv(mon, e)
